@@ -225,6 +225,13 @@ the second round is a no-op except that it fires a deadline that could not fire 
 def settle (E : Env) (skip : List Nat) (s : St) : St :=
   loopRun E skip fuel (kick (loopRun E skip fuel (kick (loopRun E skip fuel s))))
 
+/-- Nothing can happen without a further API call / clock move / finished run: the main loop cannot move
+(it is parked at its `select` with no tick, or spins without being able to dispatch), and if the timer fires
+(possible only for a deadline re-armed in the past by the negative `Reset`) the pass it causes changes nothing. -/
+def Quiescent (E : Env) (s : St) : Prop := loopRun E [] 1 s = s ∧ loopRun E [] 2 (kick s) = s
+
+instance (E : Env) (s : St) : Decidable (Quiescent E s) := by unfold Quiescent; exact inferInstance
+
 /-! ### a finished execution (`work`) -/
 
 inductive Res where | ok | err | panic
